@@ -215,7 +215,11 @@ func RulePS1(c *Ctx) {
 		if sig.Params().Len() != 1 || sig.Results().Len() != 1 || !isErrorType(sig.Results().At(0).Type()) {
 			return
 		}
-		if n, ok := sig.Params().At(0).Type().(*types.Named); !ok || n.Obj().Name() != "Schema" {
+		pt := sig.Params().At(0).Type()
+		if ptr, isPtr := pt.(*types.Pointer); isPtr {
+			pt = ptr.Elem()
+		}
+		if n, ok := pt.(*types.Named); !ok || n.Obj().Name() != "Schema" {
 			return
 		}
 		checker = self
@@ -520,19 +524,12 @@ func RuleDN1(c *Ctx) {
 			return ok && info.ObjectOf(id) == errObj && ((be.Op == token.NEQ && !fa.Truth) || (be.Op == token.EQL && fa.Truth))
 		}
 		genLen := func(fa cfgx.Fact) bool {
-			be, ok := ast.Unparen(fa.Expr).(*ast.BinaryExpr)
-			if !ok {
-				return false
-			}
-			lo, ok := lengthExpr(info, be.X)
-			if !ok {
+			lo, nonEmpty, _ := lenFact(info, fa)
+			if lo == nil || !nonEmpty {
 				return false
 			}
 			id, ok := ast.Unparen(lo).(*ast.Ident)
-			if !ok || info.ObjectOf(id) != bbObj {
-				return false
-			}
-			return (be.Op == token.EQL && !fa.Truth) || (be.Op == token.NEQ && fa.Truth) || (be.Op == token.GTR && fa.Truth)
+			return ok && info.ObjectOf(id) == bbObj
 		}
 		if cf.MustAt(call, genErr, nil, nil) && cf.MustAt(call, genLen, nil, nil) {
 			sc.Holds(key, c.P.Pos(call.Pos()), "receives string(normalised text) after the normaliser succeeded and the text was found non-empty")
